@@ -4,6 +4,7 @@ import (
 	"encoding/json"
 	"fmt"
 	"os"
+	"regexp"
 	"regexp/syntax"
 	"sort"
 	"strings"
@@ -13,6 +14,8 @@ import (
 )
 
 func init() { register("C02", checkC02) }
+
+var rePlainWords = regexp.MustCompile(`^[a-z|\n]+$`)
 
 // C02: the printed regex can be pasted between the quotes of a SecRule line.
 func checkC02(c *Ctx) error {
@@ -75,6 +78,7 @@ func checkC02(c *Ctx) error {
 		texts = append(texts, t)
 	}
 	sort.Strings(texts)
+	var scanExtra []string
 	// what `generate` puts on stdout is the expression and nothing else, at every log level
 	// (a sample of the programs, each at two other levels)
 	lvRoot, err := c.newSandbox("loglevel")
@@ -98,8 +102,42 @@ func checkC02(c *Ctx) error {
 		}
 	})
 	c.Cov["runs_at_other_log_levels"] = lvRuns
+	// non-ASCII: the programs that consist of plain words, with a non-ASCII letter in place of `a`
+	// (TLA+ strings are ASCII; the substitution is the same on every line, so the shape is the model's)
+	var uni int64
+	for _, t := range texts {
+		prog := strings.Join(outs[t], "\n")
+		if !rePlainWords.MatchString(prog) || !strings.Contains(prog, "a") || uni >= 60 {
+			continue
+		}
+		uni++
+		for _, ch := range []string{"\u00e9", "\u00df"} {
+			r := c.runCLI(lvRoot, strings.ReplaceAll(prog, "a", ch)+"\n", "-d", lvRoot, "regex", "generate", "-")
+			if r.Exit != 0 {
+				continue
+			}
+			for _, b := range []byte(r.Stdout) {
+				if b < 0x20 || b > 0x7e {
+					c.violation("output-text", map[string]any{"why": "the output contains a byte that is not printable ASCII (non-ASCII characters must appear as hex escapes)", "program": strings.ReplaceAll(prog, "a", ch), "output": r.Stdout})
+					break
+				}
+			}
+			scanExtra = append(scanExtra, r.Stdout)
+		}
+	}
+	c.Cov["programs_with_non_ascii_letters"] = uni
+	// a prefix or suffix line that makes the whole expression invalid: generate must refuse it or
+	// print something that parses
+	for _, prog := range []string{"##!^ (\nb\n", "##!$ )\na\n", "##!^ x++\na\n", "##!$ +*\na\n", "##!^ (?!a)\nb\n", "##!^ [\na\n"} {
+		r := c.runCLI(lvRoot, prog, "-d", lvRoot, "regex", "generate", "-")
+		if r.Exit == 0 {
+			if _, err := syntax.Parse(r.Stdout, syntax.Perl); err != nil {
+				c.violation("output-text", map[string]any{"why": "generate succeeds but the output is not an RE2 expression: " + err.Error(), "program": prog, "output": r.Stdout})
+			}
+		}
+	}
 	// Go-side part of the statement: one line, parses as an RE2 expression
-	var scanList []string
+	scanList := append([]string{}, scanExtra...)
 	for _, t := range texts {
 		if strings.ContainsAny(t, "\n\r") {
 			c.violation("output-text", map[string]any{"why": "output is not a single line", "output": t, "program": outs[t]})
